@@ -44,6 +44,9 @@ bool mc_next(void);
 /* Describe the current case (printf style).  Must be called before any code
  * that can crash, because the supervisor reads it after a crash. */
 void mc_desc(const char* fmt, ...) __attribute__((format(printf, 1, 2)));
+/* Bracket code that runs in every shard before the first case; a crash there is recorded as a finding. */
+void mc_prologue(const char* what);
+void mc_prologue_end(void);
 /* Narrow feature appended to crash keys of the current case (optional). */
 void mc_feature(const char* fmt, ...) __attribute__((format(printf, 1, 2)));
 /* Mark the current case as non-trivial by the harness's stated rule. */
